@@ -8,7 +8,11 @@ Inductive case :=
 | CNary (n N : nat) (root : root_arg) (obs : gres) (ids : list nat) (links ridx : bool)
 | CBinary (n : nat) (obs : gres) (ids : list nat) (links ridx : bool)
 | CStar (n : nat) (obs : gres) (ids : list nat) (links ridx : bool)
-| CBig (hosts : list nat) (N nodes : nat) (obs : gres) (ids : list nat) (links ridx : bool).
+| CBig (hosts : list nat) (N nodes : nat) (obs : gres) (ids : list nat) (links ridx : bool)
+(* the callers: LocalTest.GenBigTree / GenTree (local.go), SimulationBFTree.CreateTree *)
+| CLtBig (nodes servers bf : nat) (obs : gres) (ids : list nat) (links ridx : bool)
+| CLtTree (n : nat) (obs : gres) (ids : list nat) (links ridx : bool)
+| CSim (hosts : list nat) (bf nhosts : nat) (obs : gres) (ids : list nat) (links ridx : bool).
 
 Definition pair_eqb (a b : nat * nat) := (fst a =? fst b) && (snd a =? snd b).
 
@@ -33,11 +37,15 @@ Definition model (c : case) : gres :=
   | CBinary n _ _ _ _ => gen_binary n
   | CStar n _ _ _ _ => gen_star n
   | CBig hosts N nodes _ _ _ _ => gen_big hosts N nodes
+  | CLtBig nodes servers bf _ _ _ _ => lt_gen_big_tree nodes servers bf
+  | CLtTree n _ _ _ _ => lt_gen_tree n
+  | CSim hosts bf nhosts _ _ _ _ => sim_create_tree hosts bf nhosts
   end.
 
 Definition observed (c : case) : gres :=
   match c with
-  | CNary _ _ _ o _ _ _ | CBinary _ o _ _ _ | CStar _ o _ _ _ | CBig _ _ _ o _ _ _ => o
+  | CNary _ _ _ o _ _ _ | CBinary _ o _ _ _ | CStar _ o _ _ _ | CBig _ _ _ o _ _ _
+  | CLtBig _ _ _ o _ _ _ | CLtTree _ o _ _ _ | CSim _ _ _ o _ _ _ => o
   end.
 
 Fixpoint depths (l : list (nat * nat)) (acc : list nat) : list nat :=
@@ -62,15 +70,23 @@ Fixpoint nat_list_eqb (a b : list nat) : bool :=
   | _, _ => false
   end.
 
-Definition agree (c : case) : bool :=
-  gres_eqb (model c) (observed c) &&
-  (* the level sizes the model's loop records are those of the observed tree *)
-  match c with
-  | CBig hosts N nodes (GTree l) _ _ _ =>
+(* the level sizes the model's loop records are those of the observed tree *)
+Definition sizes_agree (hosts : list nat) (N nodes : nat) (obs : gres) : bool :=
+  match obs with
+  | GTree l =>
       match gen_big_sizes hosts N nodes with
       | Some sz => nat_list_eqb sz (level_sizes l)
       | None => false
       end
+  | _ => true
+  end.
+
+Definition agree (c : case) : bool :=
+  gres_eqb (model c) (observed c) &&
+  match c with
+  | CBig hosts N nodes obs _ _ _ => sizes_agree hosts N nodes obs
+  | CLtBig nodes servers bf obs _ _ _ => sizes_agree (repeat 0 servers) bf nodes obs
+  | CSim hosts bf nhosts obs _ _ _ => sizes_agree hosts bf nhosts obs
   | _ => true
   end.
 Definition mismatches (l : list case) : list nat := mism_idx agree l.
@@ -123,6 +139,21 @@ Definition check_nary (n N r : nat) (obs : gres) (ids : list nat) (links ridx : 
   | _ => [9]
   end.
 
+Definition check_big (hosts : list nat) (N nodes : nat) (obs : gres) (ids : list nat)
+    (links ridx : bool) : list nat :=
+  let n := length hosts in
+  if (N =? 0) || (n =? 0) || (nodes =? 0) then [] else
+  match obs with
+  | GTree l =>
+      clause 1 (wf_tree n N l && links && ridx) ++
+      clause 2 (length l =? nodes) ++
+      clause 3 (big_levels_ok N l) ++
+      clause 4 (negb (nodes =? n) || is_perm_of_roster n l) ++
+      clause 7 (match l with (0, _) :: _ => true | _ => false end) ++
+      ids_clauses l ids
+  | _ => [9]
+  end.
+
 Definition check (c : case) : list nat :=
   match c with
   | CNary n N root obs ids links ridx =>
@@ -142,19 +173,12 @@ Definition check (c : case) : list nat :=
            | GTree (_ :: r) => clause 3 (forallb (fun e => snd e =? 0) r)
            | _ => []
            end
-  | CBig hosts N nodes obs ids links ridx =>
-      let n := length hosts in
-      if (N =? 0) || (n =? 0) || (nodes =? 0) then [] else
-      match obs with
-      | GTree l =>
-          clause 1 (wf_tree n N l && links && ridx) ++
-          clause 2 (length l =? nodes) ++
-          clause 3 (big_levels_ok N l) ++
-          clause 4 (negb (nodes =? n) || is_perm_of_roster n l) ++
-          clause 7 (match l with (0, _) :: _ => true | _ => false end) ++
-          ids_clauses l ids
-      | _ => [9]
-      end
+  | CBig hosts N nodes obs ids links ridx => check_big hosts N nodes obs ids links ridx
+  | CLtBig nodes servers bf obs ids links ridx =>
+      check_big (repeat 0 servers) bf nodes obs ids links ridx
+  | CLtTree n obs ids links ridx =>
+      if n =? 0 then [] else check_nary n 2 0 obs ids links ridx
+  | CSim hosts bf nhosts obs ids links ridx => check_big hosts bf nhosts obs ids links ridx
   end.
 
 Definition violations (l : list case) : list (nat * nat) := viols check l.
